@@ -10,8 +10,7 @@ QUICK = ["gf25519", "gf255e", "gfsecp256k1", "gf448", "gfp256", "sc25519", "sc44
 # obligations that do not close within the tier budget on the unchanged tree
 # (measured; see DESIGN.md section 8) -- not posed, listed as outside the claim
 DEFER = {("gfp256", "mul"), ("gfp256", "square"), ("sc25519", "square"), ("sc25519", "xsquare2"),
-         ("sc448", "mul"), ("sc448", "square"), ("sc448", "xsquare2"), ("sc448", "mul_small"),
-         ("gfp256", "xsquare2")}
+         ("sc448", "square"), ("sc448", "mul_small"), ("gfp256", "xsquare2")}
 
 
 def drivers_for(fields):
